@@ -66,9 +66,21 @@ func c06NoEffectPath(r *an.Run, m *runModel) {
 						}
 					}
 				}
+				if hc, isCall := v.(*ssa.Call); isCall && echoHelperWrite(m, hc) != nil {
+					ok = true // the error of the helper that does the echo (it returns the write's error only)
+				}
 			}
 			r.Check(ok, key, c.Pos(), "the only error recorded on the unmatched path is the failure of the --print-only echo")
 		default:
+			if hc, isCall := c.(*ssa.Call); isCall {
+				if w := echoHelperWrite(m, hc); w != nil {
+					// the echo lives in a private helper that does nothing else
+					h := an.StaticCallee(hc)
+					r.Pass(key+"|bytes", c.Pos(), "--print-only echoes exactly the bytes read from the file (handed to %s, which writes that parameter to cmd.Stdout)", short(h))
+					r.Check(!an.ReachUnder(h.Blocks[0], noPrint, nil)[w.Block()], key+"|only-print", w.Pos(), "the echo happens only under --print-only")
+					continue
+				}
+			}
 			if bs, isW := isStdoutWrite(c); isW {
 				r.Check(an.Unwrap(bs) == m.content, key+"|bytes", c.Pos(), "--print-only echoes exactly the bytes read from the file (the os.ReadFile result), not a re-printed file")
 				guarded := m.unreachableUnder(c.Block(), noPrint)
@@ -84,15 +96,31 @@ func c06NoEffectPath(r *an.Run, m *runModel) {
 	// the next file passes through it — nothing else (the state of the runner, what happened to earlier
 	// files, the file's contents) decides whether an unmatched file is echoed
 	var echo ssa.CallInstruction
+	var echoInner *ssa.Call
 	for _, c := range callsAfter(region, m.apply) {
 		if bs, isW := isStdoutWrite(c); isW && an.Unwrap(bs) == m.content {
 			echo = c
+		}
+		if hc, isCall := c.(*ssa.Call); isCall {
+			if w := echoHelperWrite(m, hc); w != nil {
+				echo, echoInner = c, w
+			}
 		}
 	}
 	if echo != nil {
 		printing := m.hyp(map[string]bool{"Print": true, "Diff": false}, map[ssa.Value]bool{m.matched: false})
 		hdr := m.loop.Loop.Header
 		reach := an.ReachUnder(m.apply.Block(), printing, func(b *ssa.BasicBlock, i int) bool { return b == echo.Block() && b != m.apply.Block() })
+		if echoInner != nil {
+			// inside the helper: with Print set every way to a return passes the write
+			h := echoInner.Parent()
+			in := an.ReachUnder(h.Blocks[0], m.hyp(map[string]bool{"Print": true, "Diff": false}, nil), func(b *ssa.BasicBlock, i int) bool { return b == echoInner.Block() })
+			for _, ret := range an.Returns(h) {
+				if in[ret.Block()] && ret.Block() != echoInner.Block() {
+					reach[hdr] = true
+				}
+			}
+		}
 		r.Check(!reach[hdr], short(f)+"|unmatched|echo-unconditional", echo.Pos(), "with --print-only every unmatched file is echoed: no other condition lies between the matched == false decision and the write of the original bytes")
 	}
 	// and the region really ends the iteration: no block of the matched pipeline is inside
@@ -329,4 +357,68 @@ func nilUnlessReplaced(v ssa.Value, depth int) string {
 		}
 	}
 	return ""
+}
+
+// echoHelperWrite: call is a call (in Run) to a private function of package
+// main that does the --print-only echo and nothing else: its only call is a
+// write to cmd.Stdout of the parameter that is bound to the bytes read from
+// the file, it stores nothing, and every error it returns is that write's.
+// It returns the write, or nil.
+func echoHelperWrite(m *runModel, call *ssa.Call) *ssa.Call {
+	h := an.StaticCallee(call)
+	if h == nil || !an.InModule(h) || h.Blocks == nil || an.FuncPkgPath(h) != an.FuncPkgPath(m.run) || h == m.run {
+		return nil
+	}
+	var write *ssa.Call
+	for _, b := range h.Blocks {
+		for _, in := range b.Instrs {
+			switch x := in.(type) {
+			case *ssa.Store:
+				if _, local := x.Addr.(*ssa.Alloc); !local {
+					return nil
+				}
+			case *ssa.MapUpdate, *ssa.Go, *ssa.Defer, *ssa.Send:
+				return nil
+			case ssa.CallInstruction:
+				bs, isW := isStdoutWrite(x)
+				if !isW || write != nil {
+					return nil
+				}
+				p, isParam := an.Unwrap(bs).(*ssa.Parameter)
+				if !isParam {
+					return nil
+				}
+				bound := false
+				for i, q := range h.Params {
+					if q == p && i < len(an.CallArgs(call)) && an.Unwrap(an.CallArgs(call)[i]) == m.content {
+						bound = true
+					}
+				}
+				if !bound {
+					return nil
+				}
+				write, _ = x.(*ssa.Call)
+			}
+		}
+	}
+	if write == nil {
+		return nil
+	}
+	for _, ret := range an.Returns(h) {
+		for _, res := range ret.Results {
+			if !an.IsErrorType(res.Type()) {
+				continue
+			}
+			for _, l := range phiLeaves(res) {
+				if an.IsNilConst(l) {
+					continue
+				}
+				ex, ok := l.(*ssa.Extract)
+				if !ok || ex.Tuple != ssa.Value(write) {
+					return nil
+				}
+			}
+		}
+	}
+	return write
 }
